@@ -2669,8 +2669,16 @@ class DiskObjectStore(PackBasedObjectStore):
             sha = hex_to_sha(cast(ObjectID, sha))
 
         midx = self.get_midx()
-        if midx is not None and sha in midx:
-            return True
+        if midx is not None:
+            # The MIDX may be stale: only believe it if the pack it names is
+            # still there (a repack or gc may have removed it since).
+            result = midx.object_offset(cast(RawObjectID, sha))
+            if result is not None:
+                try:
+                    self._get_pack_by_name(result[0])
+                    return True
+                except (KeyError, PackFileDisappeared):
+                    pass
 
         # Fall back to checking individual packs
         return super().contains_packed(sha)
